@@ -310,3 +310,42 @@ func VerifH_C18_PeerClosedIdleConnection() {
 		verifrt.Assert(c.closed, "no upstream connection stays open after Close, also one the server had closed while it was idle")
 	}
 }
+
+// VerifH_C18_IdleTimerVersusQueryThenClose: "returns promptly without … deadlocking". A pooled one-at-a-time connection
+// whose idle timer may fire at ANY point (timers on) while the next exchange is picking it up, a pre-emption possible
+// before every lock operation and after every unlock (≤ 2 deviations), then Close(): whatever the interleaving of the
+// timer's close path and the pick-up path, nobody ends up waiting for a lock for ever (the engine reports a goroutine
+// that can never run again as a deadlock), the exchange returns (served on the pooled or on a fresh connection),
+// Close() returns, and every connection is closed afterwards.
+func VerifH_C18_IdleTimerVersusQueryThenClose() {
+	verifrt.Expect("exchange-returned,closed")
+	verifrt.Unwind(120)
+	verifrt.SchedBound(2)
+	verifrt.PreemptSync()
+	verifrt.CtxNoExpiry = true
+	var conns []*vNetConn
+	t := NewReuseConnTransport(ReuseConnOpts{DialContext: func(ctx context.Context) (net.Conn, error) {
+		c := newVNetConn()
+		conns = append(conns, c)
+		go vServePlain(c)
+		return c, nil
+	}})
+	// an earlier exchange leaves a pooled idle connection behind, its idle timer armed (the connection is set up by the
+	// transport's own dial path, with whatever bookkeeping that attaches to it)
+	r0, err0 := t.ExchangeContext(context.Background(), vQuery12(1, 1))
+	// (the timer model may fire the idle timer between two adjacent statements of the dial path, which fails the warm-up:
+	// not a schedule of interest here)
+	verifrt.Assume(err0 == nil && r0 != nil && r0.Header.RCode == 1)
+	verifrt.Quiesce()
+	r, err := t.ExchangeContext(context.Background(), vQuery12(7, 3))
+	verifrt.Reach("exchange-returned")
+	if err == nil {
+		verifrt.Assert(r != nil && r.Header.ID == 7 && r.Header.RCode == 3, "served with the reply to its own query")
+	}
+	verifrt.Assert(t.Close() == nil, "close returns")
+	verifrt.Quiesce()
+	verifrt.Reach("closed")
+	for _, c := range conns {
+		verifrt.Assert(c.closed, "no upstream connection stays open after Close")
+	}
+}
